@@ -133,8 +133,39 @@ func childMain(args []string) {
 				m0.WriteTo(&w0)
 			}
 		}
+		// a reader that is already waiting for its next message when the length changes (an idle
+		// connection): it took its buffer under the old value
+		pr, pw := io.Pipe()
+		type pres struct {
+			m   *diam.Message
+			err error
+			pan string
+		}
+		pch := make(chan pres, 1)
+		go func() {
+			var r pres
+			r.pan = guard(func() { r.m, r.err = diam.ReadMessage(pr, dict.Default) })
+			pch <- r
+		}()
+		time.Sleep(20 * time.Millisecond)
 		diam.MessageBufferLength = newLen
 		big := simpleMsg(280, 0x80, 0, 2, 2, diam.NewAVP(264, 0x40, 0, datatype.DiameterIdentity(strings.Repeat("h", body-8))))
+		go func() { pw.Write(big); pw.Close() }()
+		pend := "stuck"
+		select {
+		case r := <-pch:
+			switch {
+			case r.pan != "":
+				pend = r.pan
+			case r.err != nil:
+				pend = classifyReadErr(r.err)
+			case r.m != nil && r.m.Len() == len(big):
+				pend = "ok"
+			default:
+				pend = "short"
+			}
+		case <-time.After(2 * time.Second):
+		}
 		res := "ok"
 		if g := guard(func() {
 			for i := 0; i < 3; i++ {
@@ -162,7 +193,7 @@ func childMain(args []string) {
 		}); g != "" {
 			wres = g
 		}
-		fmt.Printf("err=%s w=%s\n", strings.ReplaceAll(res, " ", "_"), strings.ReplaceAll(wres, " ", "_"))
+		fmt.Printf("err=%s w=%s p=%s\n", strings.ReplaceAll(res, " ", "_"), strings.ReplaceAll(wres, " ", "_"), strings.ReplaceAll(pend, " ", "_"))
 	case "retain":
 		n, _ := strconv.Atoi(args[1])
 		per, _ := strconv.Atoi(args[2])
